@@ -26,7 +26,7 @@ from vf import c06_hook, c06_ref, core
 PROP = "C06"
 NEEDS_PARSER = True
 FLOOR = 0.30
-RULE = ("builtin: every subset of size <= 2 of 51 specifier atoms (specifier form x argument "
+RULE = ("builtin: every subset of size <= 2 of 53 specifier atoms (44 in 2D mode) (specifier form x argument "
         "kind), every subset of size 3 of a 22-atom core (thorough: of all atoms, plus size 4 of "
         "the core) and seeded samples of larger subsets, each in every permutation, in 3D and 2D "
         "mode, for class Object (pairs also for Point and OrientedPoint); synthetic: Hypothesis "
@@ -683,7 +683,7 @@ def _tok(v):
 
 CPROPS = ["a", "b", "c", "d", "e"]
 BUILTIN_READS = ["width", "yaw", "length"]
-OUT_PROPS = CPROPS + ["ghost", "width", "length", "yaw"]
+OUT_PROPS = CPROPS + ["ghost", "width", "length", "yaw", "heading"]
 
 
 @st.composite
@@ -723,8 +723,13 @@ def class_cases(draw):
     for _ in range(draw(st.integers(0, 4))):
         p = draw(st.sampled_from(CPROPS + ["ghost", "width", "length"]))
         withs.append([p, draw(st.integers(10, 99))])
+    # porting.rst: in 2D mode a class default for `heading` becomes one for parentOrientation;
+    # in 3D mode heading is derived (final) and cannot be overridden
+    hd = None
+    if draw(st.integers(0, 5)) == 0:
+        hd = [draw(st.integers(0, depth - 1)), draw(st.integers(1, 12)) / 8]
     return {"family": "classes", "mode2D": draw(st.sampled_from([False, False, True])),
-            "classes": classes, "withs": withs}
+            "classes": classes, "withs": withs, "hd": hd}
 
 
 def emit_classes(case):
@@ -732,7 +737,10 @@ def emit_classes(case):
     for k, body in enumerate(case["classes"]):
         base = "" if k == 0 else f"(C{k - 1})"
         lines.append(f"class C{k}{base}:")
-        if not body:
+        hd = case.get("hd")
+        if hd and hd[0] == k:
+            lines.append(f"    heading: {hd[1]!r}")
+        elif not body:
             lines.append("    pass")
         for p, d in body.items():
             expr = " + ".join(str(t[1]) if t[0] == "c" else f"self.{t[1]}" for t in d["terms"])
@@ -767,6 +775,9 @@ def ref_classes(case):
             for j in range(k):
                 if p in classes[j] and "final" in classes[j][p]["attrs"]:
                     kinds.add("final-overridden")
+    hd = case.get("hd")
+    if hd and not case["mode2D"]:
+        kinds.add("final-overridden")
     mro = list(reversed(classes))  # most derived first
     own = {}
     for p in CPROPS:
@@ -781,7 +792,8 @@ def ref_classes(case):
         withs[p] = v
         if p in finals:
             kinds.add("final-specified")
-    builtin_vals = {"width": 1.0, "length": 1.0, "yaw": 0.0}
+    builtin_vals = {"width": 1.0, "length": 1.0, "yaw": 0.0,
+                    "heading": hd[1] if hd and case["mode2D"] else 0.0}
     specs = [{"name": f"with-{p}", "prios": {p: 1}, "deps": [], "modifiable": []}
              for p in withs]
     defaults = {p: [] for p in builtin_vals}
@@ -839,6 +851,8 @@ def judge_classes(case):
             feats.update(d["attrs"])
             if any(t[0] == "self" for t in d["terms"]):
                 feats.add("self-dep")
+    if case.get("hd"):
+        feats.add("heading-default")
     out.cls(*sorted("feat:" + f for f in feats))
     ndeps = sum(1 for body in case["classes"] for d in body.values()
                 for t in d["terms"] if t[0] == "self")
@@ -941,6 +955,15 @@ def judge(case):
         chunk = [(case["cls"], case["mode2D"], tuple(case["ids"]))]
         res = run_builtin_chunk(chunk, case["mode2D"])[0]
         return judge_builtin(case, res)
+    if fam == "class-table":
+        run_builtin_chunk([("Object", False, ("at",))], False)
+        col = core.Collector(PROP, 0)
+        table_checks(col, c06_hook.CONFIG["class_info"])
+        out = core.Outcome(nontrivial=True, classes=["class-table"])
+        for sig, ent in col.failures.items():
+            for ex in ent["examples"]:
+                out.fail(sig, **ex["detail"])
+        return out
     raise core.HarnessError("unknown family " + fam)
 
 
@@ -950,7 +973,7 @@ def replay(case):
 
 
 def plan(tier, seed, jobs):
-    n = 150 if tier == "quick" else 2500
+    n = 150 if tier == "quick" else 2000
     return [{"seed": seed * 1000 + k, "n": n, "k": k, "of": jobs, "base_seed": seed}
             for k in range(jobs)]
 
